@@ -107,6 +107,22 @@ theorem ctx_check (fl : Flags) (loc : Loc) (is : List Item) (seg : List Tok) (n 
     rw [if_neg (by simp; omega)] at h4
     exact h4
 
+/-! ### small facts about the views used by the context theorems -/
+
+theorem selectionV_node (sel : Selection) : ∃ is, selectionV sel = .node sel.loc is := by
+  cases sel <;> exact ⟨_, rfl⟩
+
+theorem selectionSetV_node (ss : SelectionSet) : ∃ is, selectionSetV ss = .node ss.loc is := by
+  cases ss; exact ⟨_, rfl⟩
+
+theorem wfDirective_weaken (c : Bool) (dir : Directive) (h : wfDirective c dir = true) : wfDirective false dir = true := by
+  simp only [wfDirective, List.all_eq_true] at h ⊢
+  intro x hx
+  exact wfValue_of_const c _ (h x hx)
+
+theorem wfArgument_weaken (c : Bool) (arg : Argument) (h : wfArgument c arg = true) : wfArgument false arg = true :=
+  wfValue_of_const c _ h
+
 /-! ### tilings of the contexts -/
 
 private theorem lexeme_curlyL : Lexeme .curlyL [123] [123] := ⟨rfl, rfl⟩
